@@ -228,6 +228,14 @@ def enum_structural():
                 for c in (None, 1, -1, 2, -2, 3, -3):
                     yield ('slice',), {'op': 'slice', 'form': {'k': 'slice', 'a': a, 'b': b, 'c': c},
                                        'in': _src(kind, 1, 5)}
+        # every index list of length 1..4 over a 4-element source (selections that keep their end points but are not
+        # a range, repeats, reversals ...), as list and as int64 array
+        import itertools
+        for ln in (1, 2, 3, 4):
+            for idx in itertools.product(range(4), repeat=ln):
+                yield ('ilist_all',), {'op': 'slice', 'form': {'k': 'ilist', 'idx': list(idx),
+                                                               'as': 'list' if sum(idx) % 2 else 'np64'},
+                                       'in': _src(kind, 1, 4)}
         if kind == 'list':
             yield ('intersperse_long',), {'op': 'intersperse', 'how': 'method',
                                           'ins': [_src(kind, 1, 33000), _src(kind, 2, 3)]}
